@@ -3,13 +3,23 @@
    (rt <fmt> <doc>)    ->  (rt <saveres> <loadres> <saveres2> <loadres2>)   (later parts only while ok;
                            the second cycle uses the format the loader recorded)
    (load xBYTES)       ->  <loadres>
+   (rt-enc <fmt> <plain doc> <encrypted doc> xPW)
+                       ->  (rt-enc <saveres> <loadres> <decres>)   the ENCRYPTED document saved and loaded (Model/LoaderCrypt.v:
+                           the reader's Encrypt branch, the decrypt attempt with the empty password = property C05's handler);
+                           <decres> ::= (dec <doc>) | (dec-err <class>) | (dec-panic): Document::decrypt(PW) on what came back,
+                           when that still has an Encrypt entry, else (nodec).  The plain document is for the harness' verdict.
    <saveres> ::= (saved xBYTES <doc-after-save>) | (invalid-mark xBYTES) | (save-panic xBYTES)
    <loadres> ::= (loaded <doc> table|stream) | (err <class>) | (load-panic) | (out) | (unmodelled)
                  | (models-disagree <loadres of Loader.load> <loadres of LoaderExt.load_plain>)
    Every file is loaded by BOTH loader models: Model/Loader.v (the one the theorems are about) and its extension
    Model/LoaderExt.v (Length as a reference, object streams).  Where Loader.load answers, the two must agree (else
-   models-disagree, which no implementation output equals); where it says (unmodelled) the extension answers. *)
-From LV Require Import Base.Bytes Base.Sx Model.Obj Model.Writer Model.Save Model.Xref Model.Loader Model.LoaderExt.
+   models-disagree, which no implementation output equals); where it says (unmodelled) the extension answers; where that
+   says (unmodelled) too -- Encrypt in the trailer -- Model/LoaderCrypt.v answers (the executable primitives of
+   Model/Crypto/Concrete.v, no filter model: a file whose Encrypt branch would meet a filtered object stream stays
+   (unmodelled)). *)
+From LV Require Import Base.Bytes Base.Sx Model.Obj Model.Writer Model.Save Model.Xref Model.Loader Model.LoaderExt
+  Model.LoaderEnc.
+From LV Require Model.Crypto.Handler Model.Crypto.Concrete Model.LoaderCrypt.
 
 Definition saveres_to_sx (r : save_out) : sx :=
   match so_status r with
@@ -41,11 +51,51 @@ Definition loadres_to_sx (r : lres) : sx :=
   | LUnmodelled => SL [sx_id "unmodelled"]
   end.
 
+(* lopdf::Error classes as harness/src/bin/c01.rs prints them: every DecryptionError is Error::Decryption *)
+Definition crypt_err_to_sx (e : Handler.err) : sx :=
+  match e with
+  | Handler.E_NotEncrypted => sx_id "other-NotEncrypted"
+  | Handler.E_AlreadyEncrypted => sx_id "other-AlreadyEncrypted"
+  | Handler.E_DictKey => sx_id "other-DictKey"
+  | Handler.E_ObjectType => sx_id "other-ObjectType"
+  | Handler.E_TryFromInt => sx_id "other-TryFromInt"
+  | Handler.E_UnsupportedSecurityHandler => sx_id "other-UnsupportedSecurityHandler"
+  | _ => sx_id "other-Decryption"
+  end.
+
+(* the executable instance has no filter model: decrypt_raw's object-stream pass on a filtered stream of Type ObjStm
+   (ObjectStream::new decompresses it) is not answered *)
+Definition filtered_objstm (d : doc) : bool :=
+  existsb (fun io => match snd io with
+                     | OStream sd _ => has_type sd K_ObjStm && dict_has sd K_Filter
+                     | _ => false
+                     end) (d_objects d).
+
+Definition after_run (x : xmap) (d : doc) (t : xtype) : LoaderCrypt.cres :=
+  if filtered_objstm d then LoaderCrypt.CLoad LUnmodelled else LoaderCrypt.after_crypt Concrete.concrete x d t.
+
+(* Document::load_mem on every file: Reader::read with the Encrypt branch *)
+Definition load_crypt_run (b : bytes) : LoaderCrypt.cres :=
+  load_encx (fun _ _ => None) (fun _ => false) LoaderCrypt.cres LoaderCrypt.CLoad after_run b.
+
+Definition cres_to_sx (r : LoaderCrypt.cres) : sx :=
+  match r with
+  | LoaderCrypt.CLoad l => loadres_to_sx l
+  | LoaderCrypt.CDecryptErr e => SL [sx_id "err"; crypt_err_to_sx e]
+  | LoaderCrypt.CDecryptPanic => SL [sx_id "load-panic"]
+  end.
+Definition lres_of_cres (r : LoaderCrypt.cres) : lres :=
+  match r with LoaderCrypt.CLoad l => l | LoaderCrypt.CDecryptErr _ => LErr LeIo | LoaderCrypt.CDecryptPanic => LPanic end.
+
 Definition load_both (b : bytes) : lres * sx :=
   let a := load b in
   let e := load_plain b in
   match a with
-  | LUnmodelled => (e, loadres_to_sx e)
+  | LUnmodelled =>
+    match e with
+    | LUnmodelled => let c := load_crypt_run b in (lres_of_cres c, cres_to_sx c)
+    | _ => (e, loadres_to_sx e)
+    end
   | _ =>
     let sa := loadres_to_sx a in
     let se := loadres_to_sx e in
@@ -74,8 +124,37 @@ Definition run_rt (xt : xref_type) (d : doc) : sx :=
       | _ => []
       end).
 
+(* Document::decrypt(pw) on a loaded document that still has its Encrypt entry; a file lopdf wrote has no Compressed
+   entries in its table *)
+Definition decres_to_sx (d : doc) (pw : bytes) : sx :=
+  if dict_has (d_trailer d) K_Encrypt then
+    match Handler.doc_decrypt Concrete.concrete d pw with
+    | Handler.DOk d' _ => SL [sx_id "dec"; doc_to_sx d']
+    | Handler.DErr e => SL [sx_id "dec-err"; crypt_err_to_sx e]
+    | Handler.DErrMid e => SL [sx_id "dec-err"; crypt_err_to_sx e]
+    | Handler.DPanic => SL [sx_id "dec-panic"]
+    end
+  else SL [sx_id "nodec"].
+
+Definition run_rt_enc (xt : xref_type) (d1 : doc) (pw : bytes) : sx :=
+  let s1 := save xt d1 in
+  SL (sx_id "rt-enc" :: saveres_to_sx s1 ::
+      match so_status s1 with
+      | SaveOk =>
+        let '(l1, x1) := load_both (so_bytes s1) in
+        x1 :: match l1 with LOk d t => [decres_to_sx d pw] | _ => [] end
+      | _ => []
+      end).
+
 Definition run (x : sx) : sx :=
   match x with
+  | SL [t; f; _; ex; pw] =>
+    if is_id t "rt-enc" then
+      match fmt_of_sx f, doc_of_sx ex, as_bytes pw with
+      | Some xt, Some d1, Some pw => run_rt_enc xt d1 pw
+      | _, _, _ => sx_id "badcase"
+      end
+    else sx_id "badcase"
   | SL [t; f; dx] =>
     if is_id t "save" || is_id t "rt" then
       match fmt_of_sx f, doc_of_sx dx with
